@@ -49,6 +49,7 @@ type Exec struct {
 	evAt     int
 	stop     bool
 
+	strangerSock  *sim.UDPSock
 	opStart       time.Time
 	slept         bool // virtual time advanced inside the current step (slow callback)
 	lastToken     []byte
@@ -91,6 +92,14 @@ func (x *Exec) observe() *Obs {
 	cl := map[int]bool{}
 	for _, c := range x.w.clients {
 		cl[c.Sock.ID] = true
+	}
+	for _, s := range x.w.extraClientSocks {
+		cl[s.ID] = true
+		for {
+			if _, _, ok := s.TryRead(); !ok {
+				break
+			}
+		}
 	}
 	pr := map[int]bool{}
 	for _, p := range x.w.peers {
